@@ -57,6 +57,7 @@ type Opts struct {
 	Timeout     time.Duration // hard kill timer owned by the harness (0 = 60 s)
 	RlimitAS    uint64        // address space limit in bytes (0 = none)
 	RlimitFsize int64         // file size limit in bytes (< 0 = none)
+	Prefix      []string      // command the child is run under (e.g. strace with its options); empty = directly
 }
 
 type Result struct {
@@ -91,6 +92,9 @@ func Spawn(role string, args any, o Opts) Result {
 		self, _ = os.Executable()
 	}
 	cmd := exec.Command(self, "-test.run=^$")
+	if len(o.Prefix) > 0 {
+		cmd = exec.Command(o.Prefix[0], append(append([]string{}, o.Prefix[1:]...), self, "-test.run=^$")...)
+	}
 	cmd.Dir = o.Dir
 	cmd.Env = append(os.Environ(), envRole+"="+role, envArgs+"="+tmp.Name(), "VERIF_STATS=", "VERIF_INFLIGHT=")
 	if o.RlimitAS > 0 {
